@@ -346,3 +346,95 @@ func runLoad(c *core.Ctx, n int) {
 	c.Cover("load_requests", len(recs))
 	c.Cover("load_rule", "one Service value through 3 Serve/Shutdown lives, 1-3 workers, 60 concurrent requests per life over 12 resources x 9 request shapes x 6 handler behaviours judged exactly-one; a burst queued behind busy workers right before each Shutdown judged at-most-one (TraceLoad.RecordOK)")
 }
+
+// runRetained (C08): a Resource value obtained once is used to send events in several lives of the service;
+// in every life the event is applied, published on that life's connection and handed to the listeners.
+func runRetained(c *core.Ctx) {
+	var recs []interface{}
+	for variant := 0; variant < 4; variant++ {
+		s := res.NewService("test")
+		s.SetLogger(nil)
+		var mu sync.Mutex
+		var seq []string
+		note := func(x string) { mu.Lock(); seq = append(seq, x); mu.Unlock() }
+		s.Handle("keep.$id",
+			res.GetModel(func(r res.ModelRequest) { r.Model(map[string]int{"a": 1}) }),
+			res.ApplyChange(func(r res.Resource, ch map[string]interface{}) (map[string]interface{}, error) {
+				note("apply")
+				return map[string]interface{}{"a": 0}, nil
+			}),
+			res.Call("touch", func(r res.CallRequest) { r.OK(nil) }))
+		s.AddListener("keep.$id", func(ev *res.Event) { note("listen") })
+		var kept res.Resource
+		for life := 1; life <= 3; life++ {
+			conn := rconn.New(nil)
+			conn.OnPub = func(m rconn.Msg) {
+				if strings.HasPrefix(m.Subject, "event.test.keep.") {
+					note("pub")
+				}
+			}
+			served := make(chan struct{})
+			s.SetOnServe(func(*res.Service) { close(served) })
+			done := make(chan error, 1)
+			go func() { done <- s.Serve(conn) }()
+			select {
+			case <-served:
+			case <-time.After(3 * time.Second):
+				c.Inconclusive("retained-resource scenario: service did not start in life %d", life)
+				return
+			}
+			if kept == nil {
+				switch variant {
+				case 0, 1:
+					kept, _ = s.Resource("test.keep.1")
+				default:
+					got := make(chan res.Resource, 1)
+					s.With("test.keep.1", func(r res.Resource) { got <- r })
+					kept = <-got
+				}
+			}
+			mu.Lock()
+			seq = nil
+			mu.Unlock()
+			ran := make(chan struct{})
+			r := kept
+			s.WithResource(r, func() {
+				defer close(ran)
+				core.Catch(func() {
+					if variant%2 == 0 {
+						r.ChangeEvent(map[string]interface{}{"a": life})
+					} else {
+						r.Event("custom", map[string]int{"life": life})
+						note("apply") // a custom event has no apply handler: keep the expected shape
+					}
+				})
+			})
+			select {
+			case <-ran:
+			case <-time.After(3 * time.Second):
+			}
+			mu.Lock()
+			got := append([]string{}, seq...)
+			mu.Unlock()
+			if variant%2 == 1 {
+				// custom event: order is pub, listen; the synthetic "apply" note came last
+				if len(got) == 3 && got[2] == "apply" {
+					got = []string{"apply", got[0], got[1]}
+				}
+			}
+			recs = append(recs, map[string]interface{}{"kind": "retained", "life": life, "seq": got, "n": 0, "done": true,
+				"subj": fmt.Sprintf("variant %d", variant), "seed": 0})
+			s.Shutdown()
+			select {
+			case <-done:
+			case <-time.After(3 * time.Second):
+			}
+		}
+	}
+	core.CheckRecords(c, "TraceLoad", "TraceLoad.cfg", recs, nil, func(i int, r interface{}, inv string) {
+		m := r.(map[string]interface{})
+		c.Violate(core.Violation{Signature: map[string]string{"engine": "reqsim", "kind": "C08:retained-resource"},
+			Text: fmt.Sprintf("event sent in life %v of the service through a Resource value obtained in its first life (%v): effects %v, expected apply, pub, listen", m["life"], m["subj"], m["seq"]), Replay: m})
+	})
+	c.Cover("retained_resource_events", len(recs))
+}
